@@ -22,7 +22,9 @@ type c07Case struct {
 var c07Kinds = []string{"caller-error", "duplicate", "empty-value", "missing-fk-target", "unusable-key-empty", "unusable-key-too-large",
 	"veto-create", "veto-update", "veto-delete", "veto-parent-on-child-create", "veto-child-update", "veto-cascaded-delete", "pre-commit-action-error",
 	"pre-commit-action-error-then-ok-action", "unusable-key-in-patch", "veto-update-in-patch",
-	"pre-commit-action-error-via-derived-system-ctx", "unusable-key-via-child-store", "unusable-key-update-via-child-store"}
+	"pre-commit-action-error-via-derived-system-ctx", "unusable-key-via-child-store", "unusable-key-update-via-child-store",
+	"pre-commit-action-error-registered-before-tx", "unstorable-tag-nested-in-list", "unstorable-tag-top-level-in-patch",
+	"missing-link-target-in-persisted-link-set", "missing-link-target-in-persisted-link-set-via-child-store", "self-id-reference-to-missing-target"}
 
 var c07Entries = []string{"update", "nested-update", "batch"}
 
@@ -112,8 +114,34 @@ func failingVariant(kind string, m *kit.Model) (c07Variant, bool) {
 		return &kit.EntSpec{Name: e.Name, Alias: e.Alias, Roles: e.Roles, Note: e.Note + "!", Ref: e.Ref, TagV: e.TagV}
 	}
 	switch kind {
-	case "caller-error", "pre-commit-action-error", "pre-commit-action-error-then-ok-action", "pre-commit-action-error-via-derived-system-ctx":
+	case "caller-error", "pre-commit-action-error", "pre-commit-action-error-then-ok-action", "pre-commit-action-error-via-derived-system-ctx",
+		"pre-commit-action-error-registered-before-tx":
 		return v, true
+	case "unstorable-tag-nested-in-list":
+		// an entry bbolt refuses, inside a map inside a list inside the tag map
+		v.failing = &kit.Op{Kind: "create", Store: "targets", ID: fresh("targets"), Spec: &kit.EntSpec{Name: "fresh-name", BadTags: "nested-in-list"}}
+	case "unstorable-tag-top-level-in-patch":
+		id, e := anyOf("things")
+		if e == nil {
+			return v, false
+		}
+		sp := specOf(e)
+		sp.BadTags = "top-level"
+		v.failing = &kit.Op{Kind: "patch", Store: "things", ID: id, Spec: sp, Fields: []string{boltz.FieldTags, kit.FNote}}
+	case "missing-link-target-in-persisted-link-set":
+		// the link set is persisted with the entity (PersistContext.SetLinkedIds) and names a target that does not exist
+		id, e := anyOf("things")
+		if e == nil {
+			return v, false
+		}
+		sp := specOf(e)
+		sp.LinkField, sp.LinkIDs = "tlinks", []string{"id-missing"}
+		v.failing = &kit.Op{Kind: "update", Store: "things", ID: id, Spec: sp}
+	case "missing-link-target-in-persisted-link-set-via-child-store":
+		v.failing = &kit.Op{Kind: "create", Store: "kids", ID: fresh("things"), Spec: &kit.EntSpec{Name: "fresh-name", Extra: "fresh-extra", LinkField: "tlinks", LinkIDs: []string{"id-missing"}}}
+	case "self-id-reference-to-missing-target":
+		// the referenced id equals the referrer's own id (ids are unique per store only) and no such target exists
+		v.failing = &kit.Op{Kind: "create", Store: "deps", ID: "id-same", Spec: &kit.EntSpec{Name: "d", Ref: kit.Sp("id-same")}}
 	case "unusable-key-via-child-store":
 		// a parent-level field that cannot be stored, written through the child store
 		v.failing = &kit.Op{Kind: "create", Store: "kids", ID: fresh("things"), Spec: &kit.EntSpec{Name: "fresh-name", Roles: []string{"r1", strings.Repeat("y", 33000)}, Extra: "ex"}}
@@ -290,6 +318,9 @@ func runC07(c c07Case) kit.Result {
 					upto := pos
 					preCommit := strings.HasPrefix(kind, "pre-commit-action-error")
 					addFailingAction := func() {
+						if kind == "pre-commit-action-error-registered-before-tx" {
+							return // already queued on the context before the transaction was opened
+						}
 						if kind == "pre-commit-action-error-via-derived-system-ctx" {
 							// registered through a system context derived inside the transaction body
 							ctx.GetSystemContext().AddPreCommitAction(func(boltz.MutateContext) error { return errInjected })
@@ -333,13 +364,17 @@ func runC07(c c07Case) kit.Result {
 					return opErr
 				}
 				var txErr error
+				topCtx := kit.NewCtx()
+				if kind == "pre-commit-action-error-registered-before-tx" {
+					topCtx.AddPreCommitAction(func(boltz.MutateContext) error { return errInjected })
+				}
 				switch entry {
 				case "update":
-					txErr = w.Z.Db.Update(kit.NewCtx(), body)
+					txErr = w.Z.Db.Update(topCtx, body)
 				case "batch":
-					txErr = w.Z.Db.Batch(kit.NewCtx(), body)
+					txErr = w.Z.Db.Batch(topCtx, body)
 				case "nested-update":
-					txErr = w.Z.Db.Update(kit.NewCtx(), func(ctx boltz.MutateContext) error {
+					txErr = w.Z.Db.Update(topCtx, func(ctx boltz.MutateContext) error {
 						return w.Z.Db.Update(ctx, body)
 					})
 				}
